@@ -464,18 +464,18 @@ def check_c15(tier, deadline):
     rep = Report("C15", tier, "fault_enumeration")
     bdir = build("plain", ("drv_fault",))
     sc = scratch_dir("c15"); out = os.path.join(sc, "out.json")
-    cmd = [os.path.join(bdir, "drv_fault"), "--tier", tier, "--scratch", sc, "--out", out]
-    r = sh(cmd, capture_output=True, text=True, timeout=deadline)
+    cmd = [os.path.join(bdir, "drv_fault"), "--tier", tier, "--scratch", sc, "--out", out, "--deadline", str(deadline * 0.8)]
+    r = sh(cmd, capture_output=True, text=True, timeout=deadline * 2 + 120)
     if r.returncode != 0 or not os.path.exists(out):
         log("driver failed", r.stdout[-1000:], r.stderr[-1000:]); raise SystemExit(3)
     d = json.load(open(out)); shutil.rmtree(sc, ignore_errors=True)
     for v in d["violations"]:
         rep.add(v["sig"], v["detail"], {"engine": "fault", "tier": tier, "input": v["object"] + ":" + v["plan"]}, v["count"])
     rep.coverage = {"evaluations": d["evaluations"], "distinct_nontrivial": d["runs_with_injected_fault"],
-                    "rule": "for each of 4 objects (blank; 1 point x 2 frames; points+channels+2-block parameter section; 14 KB file crossing the stream buffer) every single fault plan: "
-                            "open fails (ENOENT/EACCES/EROFS), device capacity C for every C in [0,size), k-th write call fails (EIO/EFBIG) for every k, close fails, every/k-th write short; "
+                    "rule": "for each of 6 objects (blank; 1 point x 2 frames; points+channels+2-block parameter section; 14 KB file crossing the stream buffer; an object loaded and saved over its source; a 4.6 MB object, coarser steps) every single fault plan, each in three calling contexts (direct, in a catch handler, during stack unwinding): "
+                            "open fails (ENOENT/EACCES/EROFS), device capacity C for every C in [0,size), k-th write call fails (EIO/EFBIG) for every k, close fails, every/k-th write short, unseekable destination / k-th seek fails; "
                             "thorough adds pairs (short writes x capacity / x k-th failure, close failure x capacity); non-trivial = runs in which a fault was actually injected",
-                    "samples": d["samples"], "objects": d["objects"], "outcomes": d["outcomes"], "exhaustive": True}
+                    "samples": d["samples"], "objects": d["objects"], "outcomes": d["outcomes"], "plans_not_run_deadline": d.get("plans_not_run_deadline", 0), "exhaustive": d.get("plans_not_run_deadline", 0) == 0}
     rep.assumptions = ["faults are injected at libc's fopen/fopen64/write/writev/fclose (link-time interposition under libstdc++'s basic_filebuf); kernel-level partial failures below write() are modelled by capacity/short-write plans"]
     log(f"[fault] evaluations={d['evaluations']} outcomes={d['outcomes']}")
     return rep.finish()
